@@ -131,6 +131,11 @@ type cluster struct {
 	leaseMutex   sync.RWMutex
 	sessionMutex sync.RWMutex
 
+	// localLocks holds the process-local lock of every cluster mutex name:
+	// all Mutex values of one name must share it, because the etcd lock key
+	// is per session (i.e. per member), not per value.
+	localLocks sync.Map // name -> *sync.Mutex
+
 	done chan struct{}
 }
 
